@@ -1321,8 +1321,12 @@ func runC13(r *Run) {
 	r.Rule = "a case = initial cluster (0-4 objects among 8 keys of 2 kinds x 2 namespaces x 2 names, plus an unregistered kind) " +
 		"+ a stream of 1-6 operation documents (3 create variants, 3 delete modes, merge/JSON/jq patches with subresource, " +
 		"ignoreMissingObject, payloads inline / JSON string / YAML string / undecodable string; Deployment payloads carry integer fields) " +
-		"that is valid (62%), has exactly one invalid document (30%: unknown operation, extra property, missing required field, wrong payload type, " +
-		"empty payload, non-string operation) or is truncated (8%); the stream is rendered as JSON and as YAML, both are run through the real " +
+		"that is valid (53%), has exactly one invalid document (24%: unknown operation, extra property, missing required field, wrong payload type, " +
+		"empty payload, non-string operation, a required field / non-empty string missing inside the first jsonPatch item), has an invalid document " +
+		"placed behind the valid document it was derived from (16%; 60% of them differ from the valid twin only by a value-level rule of the schema) " +
+		"or is truncated (7%); 45% of the cases carry a history of other writers: 1-5 changes of somebody else to objects that a CreateOrUpdate / " +
+		"JQPatch of the stream updates, each landing right before the next Update of that object, which a reactor on the fake client then answers " +
+		"409 Conflict; the stream is rendered as JSON and as YAML, both are run through the real " +
 		"ParseOperations + ExecuteOperations on a fresh kube-client/fake cluster and compared with each other and with the model. " +
 		"Non-trivial = at least 2 documents; distinct = distinct op-line sequence."
 	// corpus: the observed defect (YAML Create with an integer field) and hand-written order/validity cases
@@ -1379,6 +1383,76 @@ func runC13(r *Run) {
 			c13RunCase(c, rng, map[int]c13Obj{1: {1: 2}}, "1:1=s2", docs, false)
 		})
 	}
+	// corpus: histories with other writers (an Update answered 409 Conflict after somebody else's change)
+	{
+		cm, dep := c13Pool[0], c13Pool[4]
+		jq := func(filter, body string, sub string, subID int) c13Doc {
+			m := map[string]any{"operation": "JQPatch", "apiVersion": "v1", "kind": "ConfigMap", "namespace": cm.ns, "name": cm.name, "jqFilter": filter}
+			if sub != "" {
+				m["subresource"] = sub
+			}
+			return c13Doc{valid: true, family: "patch:q", m: m, key: cm.id, locks: true,
+				desc: fmt.Sprintf("P/q/%d/1/%d/00/%s", cm.id, subID, body)}
+		}
+		cou := func(o c13Obj) c13Doc {
+			return c13Doc{valid: true, inline: true, family: "create:CreateOrUpdate", key: dep.id, locks: true,
+				m:    map[string]any{"operation": "CreateOrUpdate", "object": c13Manifest(dep, dep.kind.apiVersion, o)},
+				desc: fmt.Sprintf("C/01/%d/1/%s", dep.id, c13ObjTok(dep.kind, o))}
+		}
+		type hist struct {
+			desc    string
+			init    map[int]c13Obj
+			docs    []c13Doc
+			writers []c13Writer
+		}
+		hs := []hist{
+			{"a jq patch meets one other writer who added another field", map[int]c13Obj{cm.id: {1: 1}},
+				[]c13Doc{jq(`.data.f2 = "s4"`, "set.2.s4", "", 0)}, []c13Writer{{cm.id, []c13Edit{{"set", 3, 7}}}}},
+			{"a jq patch meets two other writers; the second one makes the patch a no-op", map[int]c13Obj{cm.id: {1: 1, 2: 2}},
+				[]c13Doc{jq(`del(.data.f2)`, "del.2", "status", 1)}, []c13Writer{{cm.id, []c13Edit{{"set", 1, 5}}}, {cm.id, []c13Edit{{"del", 2, 0}}}}},
+			{"a jq patch loses against four other writers in a row (retry budget), the next one goes through", map[int]c13Obj{cm.id: {1: 1}},
+				[]c13Doc{jq(`.data.f2 = "s4"`, "set.2.s4", "", 0), jq(`.data.f3 = "s5"`, "set.3.s5", "", 0)},
+				[]c13Writer{{cm.id, []c13Edit{{"set", 1, 2}}}, {cm.id, []c13Edit{{"set", 1, 3}}}, {cm.id, []c13Edit{{"set", 1, 4}}}, {cm.id, []c13Edit{{"set", 1, 5}}}}},
+			{"CreateOrUpdate of an existing object meets another writer, then a jq patch meets one", map[int]c13Obj{cm.id: {3: 3}, dep.id: {1: 1}},
+				[]c13Doc{cou(c13Obj{2: 6}), jq(`.data.f1 = "s9" | del(.data.f3)`, "set.1.s9+del.3", "", 0)},
+				[]c13Writer{{cm.id, []c13Edit{{"set", 2, 8}}}, {dep.id, []c13Edit{{"set", 3, 4}}}}},
+		}
+		for i, h := range hs {
+			h := h
+			r.One(5+i, func(c *Case, rng *Rng) {
+				c.Desc = "corpus (history): " + h.desc
+				c.Nontrivial = true
+				c.Note("corpus")
+				c13RunCase(c, rng, h.init, c13InitTok(h.init), h.docs, false, h.writers...)
+			})
+		}
+		// corpus: an invalid document behind a valid document with the same keys and JSON types
+		twins := []struct {
+			fault string
+			doc   c13Doc
+		}{
+			{"emptyPayload", cou(c13Obj{1: 2})},
+			{"emptyPayload", c13Doc{valid: true, inline: true, family: "patch:m", key: cm.id,
+				m:    map[string]any{"operation": "MergePatch", "kind": "ConfigMap", "namespace": cm.ns, "name": cm.name, "mergePatch": map[string]any{"data": map[string]any{"f1": "s3"}}},
+				desc: fmt.Sprintf("P/m/%d/1/0/00/set.1.s3", cm.id)}},
+			{"emptyPayload", c13Doc{valid: true, inline: true, family: "patch:j", key: cm.id,
+				m:    map[string]any{"operation": "JSONPatch", "kind": "ConfigMap", "namespace": cm.ns, "name": cm.name, "jsonPatch": []any{map[string]any{"op": "add", "path": "/data/f2", "value": "s3"}}},
+				desc: fmt.Sprintf("P/j/%d/1/0/00/set.2.s3", cm.id)}},
+			{"patchItemField", c13Doc{valid: true, inline: true, family: "patch:j", key: cm.id,
+				m:    map[string]any{"operation": "JSONPatch", "kind": "ConfigMap", "namespace": cm.ns, "name": cm.name, "jsonPatch": []any{map[string]any{"op": "add", "path": "/data/f2", "value": "s3"}}},
+				desc: fmt.Sprintf("P/j/%d/1/0/00/set.2.s3", cm.id)}},
+		}
+		for i, tw := range twins {
+			tw := tw
+			r.One(9+i, func(c *Case, rng *Rng) {
+				c.Desc = "corpus: a valid document followed by its copy with one value-level fault (" + tw.fault + ")"
+				c.Nontrivial = true
+				c.Note("corpus")
+				init := map[int]c13Obj{cm.id: {1: 1}}
+				c13RunCase(c, rng, init, c13InitTok(init), []c13Doc{tw.doc, c13ApplyFault(tw.doc, tw.fault, rng)}, false)
+			})
+		}
+	}
 	n := r.N(400, 6000)
 	r.Cases(100, n, 64, c13Random)
 
@@ -1428,10 +1502,11 @@ func runC13(r *Run) {
 			total += p
 			p *= A
 		}
-		r.Cases(1000000, 2*total, 64, func(c *Case, rng *Rng) {
+		r.Cases(1000000, 3*total, 64, func(c *Case, rng *Rng) {
 			k := c.Idx - 1000000
-			present := k%2 == 1
-			k /= 2
+			present := k%3 >= 1
+			withWriters := k%3 == 2
+			k /= 3
 			l := 1
 			for p := A; k >= p; p *= A {
 				k -= p
@@ -1448,9 +1523,14 @@ func runC13(r *Run) {
 				initTok = fmt.Sprintf("%d:1=s2;%d:1=i5+2=i6", cm.id, dep.id)
 			}
 			c.Nontrivial = l >= 2
-			c13RunCase(c, rng, init, initTok, docs, false)
+			var writers []c13Writer
+			if withWriters {
+				// somebody else changes both objects once before the first Update of each
+				writers = []c13Writer{{cm.id, []c13Edit{{"set", 3, 7}}}, {dep.id, []c13Edit{{"set", 3, 8}}}}
+			}
+			c13RunCase(c, rng, init, initTok, docs, false, writers...)
 		})
 		r.Exhaust = true
-		r.Extra["exhaustive_scope"] = fmt.Sprintf("all %d streams of 1-3 documents over a %d-symbol alphabet x 2 initial cluster states", total, A)
+		r.Extra["exhaustive_scope"] = fmt.Sprintf("all %d streams of 1-3 documents over a %d-symbol alphabet x (objects absent | present | present with one other writer per object)", total, A)
 	}
 }
